@@ -383,3 +383,190 @@ func init() {
 		Stub:   []string{"output endpoint (simrt.SimWriteCloser)", "sync.Mutex/RWMutex/WaitGroup/Pool (simrt equivalents)", "goroutine scheduling (simrt scheduler)", "upstream pipeline (harness injector task)"},
 	})
 }
+
+// ---------------------------------------------------------------------------
+// C18 — a write / flush / close failure is fatal, never followed by a clean return
+// ---------------------------------------------------------------------------
+
+// fixed small corpus of the enumerated part (every fault offset k of a ~600-byte output)
+func c18FixedPlan(kind int, compressed bool) writerPlan {
+	t := simrt.NewTape(0xC18)
+	p := writerPlan{Kind: kind, N: 3, Sizes: []int{2, 1, 2}, Arrival: []int{1, 2, 0}, Workers: 2, Compressed: compressed}
+	p.Recs = genRecs(t, 5, 0, kind == wkFastq, 40, 90)
+	return p
+}
+
+const c18MaxK = 760
+
+func c18EnumCount(tier string) int {
+	// kinds fasta, fastq, json, csv (+ the chunk writer) x plain/gzip x k in 0..c18MaxK, + close faults
+	return (nWriterKinds*2-1)*(c18MaxK+1) + (nWriterKinds*2 - 1)
+}
+
+func c18Case(tier string, i int) []int32 {
+	per := c18MaxK + 1
+	nk := nWriterKinds*2 - 1
+	if i >= nk*per {
+		v := i - nk*per
+		return []int32{2, int32(v)}
+	}
+	return []int32{1, int32(i / per), int32(i % per)}
+}
+
+func variantPlan(v int) writerPlan {
+	// v: 0 chunk writer; 1..8 = (kind 1..4) x (plain, gzip)
+	if v == 0 {
+		return c18FixedPlan(wkChunk, false)
+	}
+	return c18FixedPlan(1+(v-1)/2, (v-1)%2 == 1)
+}
+
+func runC18(rc *RunCtx) {
+	t := rc.Plan
+	mode := t.Choose(3) // 0 random plan, 1 enumerated offset on the fixed corpus, 2 close fault on the fixed corpus
+	var p writerPlan
+	w := simrt.NewSimWriteCloser()
+	faultKind := "write"
+	switch mode {
+	case 1:
+		p = variantPlan(t.Choose(nWriterKinds*2 - 1))
+		w.FailAt = t.Choose(c18MaxK + 1)
+	case 2:
+		p = variantPlan(t.Choose(nWriterKinds*2 - 1))
+		w.FailClose = true
+		faultKind = "close"
+	default:
+		maxN := 6
+		if rc.Thorough() {
+			maxN = 12
+		}
+		big := t.Choose(3) == 2
+		p = drawWriterPlan(t, maxN, big)
+		if p.N == 0 {
+			p.N, p.Sizes, p.Arrival = 1, []int{1}, []int{0}
+			p.Recs = genRecs(t, 1, 0, p.Kind == wkFastq, 3, 70)
+		}
+		// fault-free control: run separately, so that no relaxation hides an ordinary bug
+		cw := simrt.NewSimWriteCloser()
+		cres := runWriter(rc, p, cw)
+		if !rc.Liveness(cres, "C18/control/"+wkNames[p.Kind]) {
+			return
+		}
+		if cres.Exited {
+			rc.Violate("C18/control/"+wkNames[p.Kind]+"/unexpected-exit", "fault-free control run ended the process: %s", describeExit(cres))
+			return
+		}
+		L := len(cw.Bytes())
+		switch t.Choose(7) {
+		case 0:
+			w.FailAt = 0
+		case 1:
+			w.FailAt = t.Choose(L + 1)
+		case 2:
+			if L > 0 {
+				w.FailAt = L - 1
+			} else {
+				w.FailAt = 0
+			}
+		case 3:
+			// around a 4 KiB boundary of the bufio layer
+			nb := L/4096 + 1
+			w.FailAt = 4096*t.Choose(nb+1) + t.Choose(3) - 1
+			if w.FailAt < 0 {
+				w.FailAt = 0
+			}
+		case 4:
+			w.FailAt = 1
+		case 5:
+			w.FailClose = true
+			faultKind = "close"
+		default:
+			w.FailAt = t.Choose(L + 1)
+		}
+		rc.Probe(fmt.Sprintf("output_size_class_%s", sizeClass(L)))
+	}
+	sm := p.sample()
+	sm["fail_at"] = w.FailAt
+	sm["fail_close"] = w.FailClose
+	rc.Out.Sample = sm
+	kind := wkNames[p.Kind]
+	gz := "plain"
+	if p.Compressed {
+		gz = "gzip"
+	}
+	res := runWriter(rc, p, w)
+	rc.Log("fault at=%d close=%v fired=%v/%v accepted=%d writes=%d closes=%d", w.FailAt, w.FailClose, w.Fired, w.FiredClose, len(w.Buf), w.Writes, w.Closes)
+	fired := w.Fired || w.FiredClose
+	phase := "close"
+	if w.Fired {
+		rc.Fault("write_error_" + kind + "_" + gz)
+		phase = "later-endpoint-write"
+		if firstFailedWrite(w) == 0 {
+			phase = "first-endpoint-write"
+		}
+		rc.Fault("write_error_phase_" + phase)
+	} else if w.FiredClose {
+		rc.Fault("close_error_" + kind + "_" + gz)
+	}
+	rc.Out.Nontrivial = fired
+	rc.Out.Key = fmt.Sprintf("%s/%s/%s/at%d/%s/%s/%s", kind, gz, faultKind, w.FailAt, phase, permString(p.Arrival), res.Sig)
+	if res.StepCap {
+		rc.Inconclusive("step cap")
+		return
+	}
+	if res.Deadlock {
+		rc.Violate("C18/hang/"+kind+"/"+gz+"/"+phase, "the writer hangs after the injected %s fault: %s", faultKind, strings.Join(res.Blocked, "\n"))
+		return
+	}
+	if res.Panic != "" {
+		// a crash is a non-zero exit: reported, not silent
+		rc.Probe("fault_led_to_panic")
+		return
+	}
+	if res.Exited && res.ExitCode != 0 {
+		rc.Probe("fault_reported_fatal")
+		return
+	}
+	if !fired {
+		// the output ended before the fault offset: nothing was injected; the run is a plain C04 run
+		rc.Probe("fault_never_reached")
+		return
+	}
+	rc.Violate(fmt.Sprintf("C18/silent-loss/%s/%s/%s", kind, gz, phase),
+		"injected %s fault (fail_at=%d fail_close=%v) but the writer returned normally: endpoint accepted %d bytes in %d writes, Close calls=%d; fatal messages: %q",
+		faultKind, w.FailAt, w.FailClose, len(w.Buf), w.Writes, w.Closes, res.FatalMsg)
+}
+
+func firstFailedWrite(w *simrt.SimWriteCloser) int {
+	for i, l := range w.Log {
+		if strings.Contains(l, "!") {
+			return i
+		}
+	}
+	return -1
+}
+
+func sizeClass(n int) string {
+	switch {
+	case n < 4096:
+		return "lt4k"
+	case n < 65536:
+		return "4k-64k"
+	default:
+		return "gt64k"
+	}
+}
+
+func init() {
+	register(&Property{
+		ID:     "C18",
+		Enum:   c18EnumCount,
+		Case:   c18Case,
+		Random: func(tier string) int { return map[string]int{"quick": 1500, "thorough": 80000}[tier] },
+		Run:    runC18,
+		Level:  "fault_enumeration",
+		Rule: "enumerated part: a write fault (short count + error, sticky) at every absolute byte offset k=0..760 of the output of a fixed 5-record/3-batch corpus, and a Close fault, for WriteSeqFileChunk and the FASTA/FASTQ/JSON/CSV writers, plain and gzip; random part: random corpora (outputs <4 KiB, 4-64 KiB, >64 KiB), arrival orders, 1-4 formatting workers, offsets stratified (0, 1, last byte, 4 KiB boundaries +-1, uniform) and Close faults, each after a separate fault-free control run. distinct = distinct (writer, compression, fault kind, offset, phase at which the endpoint failed, arrival order, schedule signature); non-trivial = the fault actually fired",
+		Real: []string{"obiformats.WriteSeqFileChunk", "obiformats.WriteFasta/WriteFastq/WriteJSON/WriteCSV", "obiutils.CompressStream / Wfile (bufio + pgzip)", "obiiter iterators", "logrus Fatal path (exit captured)"},
+		Stub: []string{"output endpoint (simrt.SimWriteCloser with a fault plan)", "sync primitives and scheduler (simrt)", "process exit (captured as the run's outcome)", "upstream pipeline (harness injector task)"},
+	})
+}
